@@ -232,7 +232,7 @@ impl Ctx {
             threadsim: root.join("target/sim/release/threadsim"),
             shim: root.join("target/simos_preload.so"),
             work_root: root.join("work").join(format!("{}", std::process::id())),
-            timeout: Duration::from_secs(20),
+            timeout: Duration::from_secs(10),
         }
     }
 
